@@ -350,4 +350,106 @@ theorem fresh_releaseList (s : State) (vs : List Val) : (releaseList s vs).fresh
   | cons v vs => simp only [releaseList]; rw [fresh_releaseList, fresh_release]
 end
 
+/-! ### the assertion flag `uaf` -/
+
+theorem isFreed_of_sameRoots {s t : State} (h : SameRoots s t) (i : Nat) : t.isFreed i = s.isFreed i := by
+  simp [State.isFreed, h.freed]
+
+mutual
+/-- `retain` of a value none of whose slots is freed fires no assertion -/
+theorem uaf_retain (s : State) (v : Val) (hv : ∀ j, 0 < v.count j → s.isFreed j = false) :
+    (retain s v).uaf = s.uaf := by
+  cases v with
+  | bin b =>
+    cases b with
+    | const k => simp [retain]
+    | heap j => simp [retain, retainIdx, hv j (by simp)]
+  | tuple id fs => simp only [retain]; exact uaf_retainList s fs (fun j hj => hv j (by simpa using hj))
+  | func id cs => simp only [retain]; exact uaf_retainList s cs (fun j hj => hv j (by simpa using hj))
+  | int _ => simp [retain]
+  | ref _ => simp [retain]
+  | builtin _ => simp [retain]
+  | proc _ _ => simp [retain]
+  | resource _ _ => simp [retain]
+theorem uaf_retainList (s : State) (vs : List Val) (hv : ∀ j, 0 < countList j vs → s.isFreed j = false) :
+    (retainList s vs).uaf = s.uaf := by
+  cases vs with
+  | nil => simp [retainList]
+  | cons v vs =>
+    simp only [retainList]
+    rw [uaf_retainList (retain s v) vs (fun j hj => by
+      rw [isFreed_of_sameRoots (sameRoots_retain s v)]; exact hv j (by simp; omega))]
+    exact uaf_retain s v (fun j hj => hv j (by simp; omega))
+end
+
+mutual
+/-- `release` of a value whose slots are counted at least as often as it mentions them, none freed,
+fires no assertion (no use-after-free, no underflow) -/
+theorem uaf_release (s : State) (v : Val) (hc : ∀ j, v.count j ≤ s.rc j)
+    (hf : ∀ j, s.isFreed j = true → s.rc j = 0) : (release s v).uaf = s.uaf := by
+  cases v with
+  | bin b =>
+    cases b with
+    | const k => simp [release]
+    | heap j =>
+      have h1 : 1 ≤ s.rc j := by simpa using hc j
+      have h2 : s.isFreed j = false := by
+        cases hq : s.isFreed j with
+        | false => rfl
+        | true => have := hf j hq; omega
+      have h3 : (s.rc j == 0) = false := by simp; omega
+      simp [release, releaseIdx, h2, h3]
+  | tuple id fs => simp only [release]; exact uaf_releaseList s fs (fun j => by simpa using hc j) hf
+  | func id cs => simp only [release]; exact uaf_releaseList s cs (fun j => by simpa using hc j) hf
+  | int _ => simp [release]
+  | ref _ => simp [release]
+  | builtin _ => simp [release]
+  | proc _ _ => simp [release]
+  | resource _ _ => simp [release]
+theorem uaf_releaseList (s : State) (vs : List Val) (hc : ∀ j, countList j vs ≤ s.rc j)
+    (hf : ∀ j, s.isFreed j = true → s.rc j = 0) : (releaseList s vs).uaf = s.uaf := by
+  cases vs with
+  | nil => simp [releaseList]
+  | cons v vs =>
+    simp only [releaseList]
+    have hcv : ∀ j, v.count j ≤ s.rc j := fun j => by have := hc j; simp at this; omega
+    rw [uaf_releaseList (release s v) vs
+      (fun j => by rw [rc_release]; have := hc j; simp at this; omega)
+      (fun j hj => by
+        rw [isFreed_of_sameRoots (sameRoots_release s v)] at hj
+        rw [rc_release, hf j hj]; omega)]
+    exact uaf_release s v hcv hf
+end
+
+/-! ### `collect_heap_indices` versus `count` -/
+
+mutual
+theorem mem_idxs_iff (v : Val) (i : Nat) : i ∈ v.idxs ↔ 0 < v.count i := by
+  cases v with
+  | bin b =>
+    cases b with
+    | const k => simp [Val.idxs, Val.count]
+    | heap j =>
+      simp only [Val.idxs, count_heapBin, List.mem_singleton]
+      constructor
+      · intro e; simp [e]
+      · intro h; by_cases e : j = i
+        · exact e.symm
+        · simp [e] at h
+  | tuple id fs => simp only [Val.idxs, count_tuple]; exact mem_idxsList_iff fs i
+  | func id cs => simp only [Val.idxs, count_func]; exact mem_idxsList_iff cs i
+  | int _ => simp [Val.idxs, Val.count]
+  | ref _ => simp [Val.idxs, Val.count]
+  | builtin _ => simp [Val.idxs, Val.count]
+  | proc _ _ => simp [Val.idxs, Val.count]
+  | resource _ _ => simp [Val.idxs, Val.count]
+theorem mem_idxsList_iff (vs : List Val) (i : Nat) : i ∈ idxsList vs ↔ 0 < countList i vs := by
+  cases vs with
+  | nil => simp [idxsList]
+  | cons v vs =>
+    simp only [idxsList, List.mem_append, countList_cons]
+    rw [mem_idxs_iff v i, mem_idxsList_iff vs i]; omega
+end
+
+
 end QM.Heap
